@@ -214,8 +214,9 @@ Example C10_example_autoreg_hyps :
   (forall i y, (i < 2)%nat -> length y = 2%nat -> exists rho, G ex_F i y rho = 0) /\
   (forall i, (i < 2)%nat -> nth i (ex_F [1 / 2; 5 / 4]) 0 = 0).
 Proof. exact ex_F_hyps. Qed.
-(* and the executable scan on the same map at Q: x0 solved first, written back, then x1 = (3 - x0)/2 *)
+(* and the executable scan on the same map at Q (condition [0; 1], target [1/2; 4]): x0 solved first, written
+   back, then x1 = (3 - x0)/2 *)
 Example C10_example_autoreg_run :
-  autoreg_tri QOps [(FPl (0 # 1) (0 # 1) (1 # 1) [], [], 1 # 2); (FPl (0 # 1) (0 # 1) (2 # 1) [], [1 # 1], 3 # 1)] (0 # 1) (1 # 1) (1 # 1024) 200 20
+  autoreg_tri QOps [(FPl (0 # 1) (0 # 1) (1 # 1) [], [], 0 # 1, 1 # 2); (FPl (0 # 1) (0 # 1) (2 # 1) [], [1 # 1], 1 # 1, 4 # 1)] (0 # 1) (1 # 1) (1 # 1024) 200 20
   = Some [(1 # 2)%Q; (5 # 4)%Q].
 Proof. vm_compute. reflexivity. Qed.
